@@ -31,3 +31,14 @@ package forwarder
 //@ ensures result == nil && old(l.ReadLimit) <= 0 && old(l.WriteLimit) <= 0 ==> !(l.listener is *ratelimit.Listener)
 //@ ensures result == nil && old(l.ProxyProtocolConfig) != nil && (old(l.ReadLimit) > 0 || old(l.WriteLimit) > 0) ==> l.listener.(*ratelimit.Listener).Listener is *proxyproto.Listener
 //@ ensures result == nil && old(l.ProxyProtocolConfig) != nil && old(l.ReadLimit) <= 0 && old(l.WriteLimit) <= 0 ==> l.listener is *proxyproto.Listener && l.listener.(*proxyproto.Listener).ReadHeaderTimeout == old(l.ProxyProtocolConfig.ReadHeaderTimeout)
+
+// ---- error to status mapping (C18 L18.2, C12, C04) ----
+
+// An error carrying a martian.ErrorStatus (e.g. the Via loop refusal, 400) is
+// reported with exactly that status.
+//@ func handleMartianErrorStatus
+//@ property C18 C12
+//@ requires req != nil
+//@ modifies martian.ErrorStatus.Status, martian.ErrorStatus.Err
+//@ ensures err is martian.ErrorStatus ==> code == err.(martian.ErrorStatus).Status
+//@ ensures errStatus(err) == -1 ==> code == 0
